@@ -1,7 +1,11 @@
 import TracklibVerif.Model.DTW
 /-! Executable model of `match` / `compare` in the DTW, FDTW and FRECHET modes of
-`tracklib/algo/comparison.py` (`_distance`, `_p2weight`, `_dtw`, `_fdtw`, `_update_node`,
-`_fillAF_dtw`, `_dtw_comparison`, `_fdtw_comparison`), table style, as the code is after 42f835b.
+`tracklib/algo/comparison.py`, table style, as the code is after 42f835b: the two algorithms `_dtw` and `_fdtw`
+(+ `_update_node`, `priority_dict.pop_smallest` by its contract) for any accumulation, `_distance`, `_fillAF_dtw` on
+`output = track1.copy()` (which may already carry the features of an earlier matching: `fillAFOn`), and, in the last
+part of the file, the calls as a user makes them: `_p2weight` as its cascade of tests on the type name and the value of
+`p`, `match` / `compare` dispatching on the integer mode constants, `_dtw_comparison` / `_fdtw_comparison`, and sessions of
+calls on shared objects (`runSeq`).
 
 Conventions, as in the Python: rows `i` index **track2**, columns `j` index **track1**;
 `D[i,j] = _distance(track2[i], track1[j])`; the tables are kept as lists of *columns*
